@@ -63,6 +63,10 @@ def run(chk):
     good = work / "good.utb"
     good.write_text("space \\s 0\nletter a 1\nletter b 12\nletter c 14\nalways ab 3\nnoback pass2 @3 @6\n")
     goodcase = "Y %s ;; %s" % (good, trans.case_line("T", 4, [97, 98, 32, 99, 97], 20, presence=12))
+    good2 = work / "good2.utb"
+    good2.write_text(good.read_text())
+    inc = work / "inc.uti"
+    inc.write_text("letter z 1356\n")
     bases = [("ks", (VERIF / "corpus" / "c13" / "ks.utb").read_text())]
     r0 = rng.fork("gen")
     entries, rules, _ = tablegen.gen_c06_table(r0, directions=("noback", "nofor"))
@@ -131,11 +135,12 @@ def run(chk):
             if key.startswith("selfinclude"):
                 data = data.replace(b"SELF", p.name.encode())
             p.write_bytes(data)
-            lines += [goodcase, "V %s" % p, "V %s" % p, goodcase]
+            # ... and a table that is only ever extended (never finalised) takes a valid include at run time afterwards
+            lines += [goodcase, "V %s" % p, "V %s" % p, "K %s | include %s" % (good2, inc), goodcase]
         outs = common.run_stream(exe, ["e 1"], lines, env=env, timeout=240)
         ref = None
         for j, (key, data) in enumerate(chunk):
-            o = outs[4 * j:4 * j + 4]
+            o = outs[5 * j:5 * j + 5]
             chk.count(key, nontrivial=True)
             kp = key.split(":")
             chk.tally("fault_" + (kp[2] if len(kp) > 2 and kp[1].startswith("line") else kp[1] if len(kp) > 1 else "special"))
@@ -147,7 +152,7 @@ def run(chk):
                 m = re.search(r" at (\w+) (\S+)$", crash[0][1])
                 chk.violation("compile-%s:%s" % (kind, m.group(1) if m else "?"), "compiling a corrupted table: %s (%s)" % (crash[0][1][:200], key), replay)
                 continue
-            g1, v1, v2, g2 = o
+            g1, v1, v2, k1, g2 = o
             f = lambda v: dict(x.split("=") for x in v.split()[2:])
             ret1, ret2 = int(v1.split()[1]), int(v2.split()[1])
             e1, e2 = int(f(v1)["errors"]) + int(f(v1)["fatal"]), int(f(v2)["errors"]) + int(f(v2)["fatal"])
@@ -158,6 +163,9 @@ def run(chk):
                 chk.violation("silent-failure", "compilation failed without an error-level message (%s)" % key, replay)
             elif ret1 != ret2 or (ret2 == 0 and e2 == 0):
                 chk.violation("outcome-not-pure", "compiling the same files twice gives %d then %d (errors %d, %d): %s" % (ret1, ret2, e1, e2, key), replay)
+            elif k1.strip() != "K 1":
+                chk.violation("later-compilation-disturbed", "a valid include added at run time to another, loaded table is answered with '%s' after the "
+                              "failed/odd compilation (%s)" % (k1.strip(), key), dict(replay, commands=lines[5 * j:5 * j + 5]))
             elif sig(g1) != sig(g2) or (ref is not None and sig(g1) != ref):
                 chk.violation("good-table-disturbed", "a table loaded before behaves differently after a failed/odd compilation (%s)" % key, replay)
             else:
